@@ -17,6 +17,9 @@ def main():
     if a.prop == 'C14':
         import clock_check
         return clock_check.main(a.prop, a.tier, a.seed, a.replay)
+    if a.prop == 'C16':
+        import model_edit
+        return model_edit.main(a.prop, a.tier, a.seed, a.replay)
     print('unknown property', a.prop)
     return 2
 
